@@ -125,10 +125,47 @@ def check_grace_period(ctx):
               'longer is force-killed in the middle of its finally/with blocks and the parent sees error None instead of WorkerTerminatedError', where=loc(term, uses[0]) if uses else loc(term, term.node))
 
 
+def check_single_delivery(ctx):
+    """One terminate() delivers the exception once.  While the first WorkerTerminatedError unwinds the target the thread is still alive - it is running the
+    target's finally blocks and __exit__ methods - so an injection repeated "until the thread is gone" lands inside that clean-up and aborts it: the property
+    promises that the clean-up runs.  Rule: in every function of the worker hierarchy, a call of foreign_raise, and in every terminate(), the statement that
+    sends the terminate command to the child's control thread, does not lie on a cycle of the control-flow graph."""
+    P = ctx.prog
+    W = P.cls('Worker')
+    n = 0
+    for f in P.funcs.values():
+        c = f.cls
+        if c is None or W not in c.mro() or f.parent is not None:
+            continue
+        sites = []
+        for call in calls_in(f.node):
+            if last_attr(call) == 'foreign_raise':
+                sites.append((call, 'foreign_raise'))
+            elif f.name == 'terminate' and last_attr(call) in ('put', 'send', 'send_msg'):
+                args = list(call.args)
+                if any((isinstance(a, ast.Constant) and a.value == 'terminate') or
+                       (isinstance(a, ast.Tuple) and a.elts and isinstance(a.elts[0], ast.Constant) and a.elts[0].value == 'terminate') for a in args):
+                    sites.append((call, 'terminate command'))
+        if not sites:
+            continue
+        ctx.used(f)
+        g = ctx.an.cfg(f, c)
+        for call, what in sites:
+            n += 1
+            ev = [x for x in g.nodes if x.stmt is not None and x.part != 'post' and any(y is call for y in x.calls())]
+            post = [x for x in g.nodes if x.stmt is not None and x.part == 'post' and any(y is call for y in x.calls())]
+            p = g.find_path(post, lambda x: x in ev, edge_ok=is_flow) if ev and post else None
+            ctx.check('R1', f'{f.short}: the {what} is issued once per call (not inside a loop)', p is None, f.short, f'delivery-repeated:{what.split()[0]}',
+                      f'{f.short} can issue `{short(call)}` again after it has issued it: the second WorkerTerminatedError lands while the first one is unwinding the target - '
+                      'inside its finally / __exit__ - and aborts the clean-up the property promises', where=loc(f, call), path=path_str(p or []))
+    ctx.floor('injection / terminate-command sites', n, 5)
+
+
 def run(ctx):
     from ..frame import check_frame_attrs
     check_frame_attrs(ctx, 'C03', 'R1')
     check_grace_period(ctx)
+    check_single_delivery(ctx)
     P = ctx.prog
     classes = worker_classes(P, internal=False)
     utils = P.module('utils')
